@@ -17,7 +17,8 @@
 (***************************************************************************)
 EXTENDS Clauses
 
-CONSTANTS Sym,        \* symmetry name
+CONSTANTS Ignore,     \* set of clause names not to stop at
+          Sym,        \* symmetry name
           Kind,       \* "abelian" | "fermionic"
           IxPool,     \* set of charge tables: sequences of [c, d] (sorted)
           MaxRank,    \* rank of fresh inputs
@@ -285,6 +286,31 @@ OpEinsum ==
                Apply(Step("einsum", [lhs |-> lhs, rhs |-> [k \in 1..Len(kept) |-> kept[p[k]]], preserve_array |-> TRUE],
                           <<r>>, <<Fresh>>, "method"))
 
+\* reshape: merge two adjacent axes, merge everything, drop or insert a unit axis, or go back to the shape an
+\* earlier reshape started from (round trip)
+ReshapeTargetsM(x) ==
+  LET sh == ShapeOf(x)
+      n == Len(sh)
+  IN {SubSeq(sh, 1, k - 1) \o <<sh[k] * sh[k + 1]>> \o SubSeq(sh, k + 2, n) : k \in 1..(n - 1)}
+     \cup (IF n >= 2 THEN {<<ProdSeq(sh)>>} ELSE {})
+     \cup {SubSeq(sh, 1, k - 1) \o SubSeq(sh, k + 1, n) : k \in {q \in 1..n : sh[q] = 1 /\ n >= 2}}
+     \cup {SubSeq(sh, 1, k) \o <<1>> \o SubSeq(sh, k + 1, n) : k \in 0..n}
+     \cup {ShapeOf(reg[hist[i].in[1]]) : i \in {q \in 1..Len(hist) : hist[q].op = "reshape" /\ hist[q].in[1] \in Regs}}
+OpReshape ==
+  "reshape" \in OpSet /\ \E r \in Arrays : reg[r].blocks # <<>> /\ \E t \in ReshapeTargetsM(reg[r]) :
+     t # ShapeOf(reg[r]) /\
+     LET promised == IsMergeDrop(ShapeOf(reg[r]), t) \/ \E i \in 1..Len(hist) :
+                        hist[i].op = "reshape" /\ hist[i].out = <<r>> /\ hist[i].in[1] \in Regs /\ t = ShapeOf(reg[hist[i].in[1]])
+                                                    /\ IsMergeDrop(t, hist[i].args.newshape)
+     IN Apply(Step("reshape", IF promised THEN [newshape |-> t, back |-> TRUE] ELSE [newshape |-> t], <<r>>, <<Fresh>>, "method"))
+\* C07 in the model: merge/drop and back restores the array exactly
+ReshapeRoundTrip ==
+  \A i, j \in 1..Len(hist) :
+    (i < j /\ hist[i].op = "reshape" /\ hist[j].op = "reshape" /\ hist[j].in = hist[i].out
+       /\ hist[j].args.newshape = ShapeOf(reg[hist[i].in[1]])
+       /\ IsMergeDrop(ShapeOf(reg[hist[i].in[1]]), hist[i].args.newshape))
+      => SameValue(reg[hist[j].out[1]], reg[hist[i].in[1]])
+
 Init == reg = <<>> /\ hist = <<>> /\ bad = {}
 Next ==
   \/ New
@@ -295,11 +321,13 @@ Next ==
   \/ OpChainStep
   \/ (Cardinality(Regs) >= 1 /\ Len(hist) < MaxDepth /\
         (OpTranspose \/ OpConj \/ OpExpand \/ OpSqueeze \/ OpFuse \/ OpUnfuse \/ OpTensordot \/ OpPhase
-         \/ OpArith \/ OpDiag \/ OpReduce \/ OpEinsum))
+         \/ OpArith \/ OpDiag \/ OpReduce \/ OpEinsum \/ OpReshape))
 Spec == Init /\ [][Next]_vars
 
 \* Impl |= Props : no transition fails any property clause
-AllPropertiesHold == bad = {}
+\* (Ignore: clauses of OTHER properties that a run has already seen violated - the check of property P only stops
+\* at clauses of P; see vlib/machine.py)
+AllPropertiesHold == bad \subseteq Ignore
 \* C01 as a state invariant of the machine
 AllValid == \A r \in Regs : IsArray(reg[r]) => Valid(reg[r])
 
@@ -318,6 +346,7 @@ HashStep(st) ==
     [] st.op = "multiply_diagonal" -> 103 + st.args.axis
     [] st.op \in {"smul", "rsmul"} -> 107 + st.args.k[1]
     [] st.op = "neg" -> 109
+    [] st.op = "reshape" -> 157 + HashSeq(st.args.newshape)
     [] st.op = "einsum" -> 151 + HashSeq(st.args.lhs) + 3 * HashSeq(st.args.rhs)
     [] st.op = "sum" -> 113
     [] st.op = "norm_sq" -> 127
